@@ -416,8 +416,11 @@ def run_task(task):
         # enumeration: every abort point of this base scenario x every kind possible there, and
         # every main-thread blocking point for the interrupt, each under fifo and one perturbed
         # schedule
+        # (one base scenario is enumerated by three tasks -- part = offend | interrupt | leave --
+        # that share its seed, so that no single task runs for many minutes)
+        part = task.get('part')
         npoints = 0
-        for pt in pts:
+        for pt in (pts if part in (None, 'offend') else ()):
             for kind in kinds_for(pt[1]):
                 scn = make_abort_scn(rng, base, pt, kind)
                 if scn is None:
@@ -429,7 +432,7 @@ def run_task(task):
                     if len(samples) < 2:
                         samples.append(sample)
         nleave = 0
-        for pt in leave_points(base):
+        for pt in (leave_points(base) if part in (None, 'leave') else ()):
             for seat in rb.SEATS:
                 scn = make_leave_scn(base, pt, seat)
                 sched = session.default_sched()
@@ -438,7 +441,7 @@ def run_task(task):
                 nleave += 1
                 run_one(scn, sched, props, st, findings, 's3e:leave')
         nint = 0
-        for it in all_interrupts(info):
+        for it in (all_interrupts(info) if part in (None, 'interrupt') else ()):
             scn = copy.deepcopy(base)
             scn['family'] = 'S3'
             scn['abort'] = {'kind': 'interrupt', 'what': 'interrupt'}
@@ -447,7 +450,8 @@ def run_task(task):
             sched['interrupt'] = it
             nint += 1
             run_one(scn, sched, props, st, findings, 's3e:interrupt')
-        st['exhaustive'] = {'base_seed': task['seed'], 'boards': len(base['boards']),
+        st['exhaustive'] = {'base_seed': task['seed'], 'part': part or 'all',
+                            'boards': len(base['boards']),
                             'decision_points': len(pts), 'offending_points_x_kinds': npoints,
                             'interrupt_points': nint, 'leave_points_x_seats': nleave}
     return {'stats': st, 'findings': findings[:20], 'samples': samples, 'nfindings': len(findings)}
